@@ -244,6 +244,20 @@ async def _rx_session(spec, sess):
         return m
 
     setattr(client.decoder, fn, wrapped)
+    real_rx = client._receive_impl
+
+    async def rx_wrapped():
+        try:
+            await real_rx()
+        except asyncio.CancelledError:
+            sess.ev(["rxi", "cancel"])
+            raise
+        except Exception as e:  # noqa: BLE001
+            sess.ev(["rxi", "exc", type(e).__name__])
+            raise
+        sess.ev(["rxi", "ok"])
+
+    client._receive_impl = rx_wrapped
 
     cb = spec.get("cb", {})
     ncb = [0]
@@ -257,8 +271,10 @@ async def _rx_session(spec, sess):
         sess.ev(["cbs", idx])
         try:
             if cb.get("sleep_every") and n % cb["sleep_every"] == 0:
+                sess.ev(["cbsusp", idx])
                 await asyncio.sleep(cb.get("sleep_s", 0.25))
             if cb.get("yield_every") and n % cb["yield_every"] == 0:
+                sess.ev(["cbsusp", idx])
                 await asyncio.sleep(0)
             if cb.get("raise_every") and n % cb["raise_every"] == 0:
                 raise RuntimeError("scripted callback failure")
@@ -343,14 +359,14 @@ async def _tx_session(spec, sess):
     scb = spec.get("status_cb", "ret")
 
     async def on_status(s):
-        sess.ev(["status", s.name])
+        sess.ev(["status", s.name, _tname()])
         if scb == "sleep":
             await asyncio.sleep(0.3)
         elif scb == "yield":
             await asyncio.sleep(0)
         elif scb == "raise":
             raise RuntimeError("scripted status callback failure")
-        sess.ev(["status_done", s.name])
+        sess.ev(["status_done", s.name, _tname()])
 
     if scb != "none":
         client.set_status_callback(on_status)
@@ -536,7 +552,7 @@ def run_jobs(jobs, repo=None, nproc=3, per_job_s=20):
     def one(idx):
         sub = [jobs[i] for i in idx]
         # watchdog: generous per batch, but bounded; the in-worker SIGALRM catches single hung sessions
-        r = _run_batch(sub, repo, timeout=60 + per_job_s * 3 + 0.05 * len(sub))
+        r = _run_batch(sub, repo, timeout=30 + per_job_s + 0.5 * len(sub))
         return idx, r
 
     t0 = time.time()
@@ -546,6 +562,58 @@ def run_jobs(jobs, repo=None, nproc=3, per_job_s=20):
                 results[i] = x
     _ = t0
     return results
+
+
+# ------------------------------------------------------------------ message pool and wire formats (parent side)
+POOL_BASIC = [
+    "2020-01-01-00:00:00.000,6,59904,1,255,3,00,ee,00",
+    "2020-01-01-00:00:00.000,2,127250,1,255,8,01,10,27,ff,7f,ff,7f,fd",
+    "2020-01-01-00:00:00.000,2,130306,1,255,8,01,10,27,ff,7f,fa,ff,ff",
+    "2020-01-01-00:00:00.000,2,129025,1,255,8,01,10,27,0f,7f,fa,0f,0f",
+    "2020-01-01-00:00:00.000,2,129026,1,255,8,01,fc,27,0f,7f,0a,ff,ff",
+    "2020-01-01-00:00:00.000,2,128267,1,255,8,01,10,27,00,00,fa,0f,0f",
+    "2020-01-01-00:00:00.000,6,126992,1,255,8,01,f0,10,47,00,a3,b2,1c",
+    "2020-01-01-00:00:00.000,5,130312,1,255,8,01,01,01,10,75,ff,ff,ff",
+    "2020-01-01-00:00:00.000,5,127257,1,255,8,01,10,27,10,07,10,03,ff",
+    "2020-01-01-00:00:00.000,5,127245,1,255,8,01,f8,10,07,10,03,ff,ff",
+    "2020-01-01-00:00:00.000,3,129029,7,255,43,01,10,47,00,a3,b2,1c,00,00,00,c0,5d,a1,13,05,00,00,00,40,9c,24,0b,01,00,"
+    "40,42,0f,00,00,00,00,13,fc,08,64,00,c8,00,10,27,00,00,00",
+    "2020-01-01-00:00:00.000,6,128275,1,255,14,10,47,00,a3,b2,1c,00,40,e2,01,00,80,84,1e",
+    "2020-01-01-00:00:00.000,6,127506,1,255,11,01,02,00,50,50,10,0e,ff,ff,ff,ff",
+]
+
+
+def build_pool():
+    """Messages that decode and re-encode in every wire format: [(msg, n_frames)]."""
+    from nmea2000.decoder import NMEA2000Decoder
+    from nmea2000.encoder import NMEA2000Encoder
+    dec, enc = NMEA2000Decoder(), NMEA2000Encoder()
+    pool = []
+    for s in POOL_BASIC:
+        try:
+            m = dec.decode_basic_string(s, True)
+            n = len(enc.encode_usb(m))
+            enc.encode_ebyte(m)
+            enc.encode_yacht_devices(m)
+            enc.encode_actisense(m)
+        except Exception:  # noqa: BLE001
+            continue
+        if m is not None:
+            pool.append((m, n))
+    return pool
+
+
+def wire_rx(kind, m, enc, ts="00:01:02.345"):
+    """The packets a gateway of this kind would send for message m (receive direction)."""
+    if kind == "ebyte":
+        return [p.ljust(13, b"\0") for p in enc.encode_ebyte(m)]
+    if kind == "waveshare":
+        return list(enc.encode_usb(m))
+    if kind == "yd":
+        return [(ts + " R ").encode() + p for p in enc.encode_yacht_devices(m)]
+    if kind == "actisense":
+        return [("A000123.456 " + enc.encode_actisense(m) + "\r\n").encode()]
+    raise ValueError(kind)
 
 
 if __name__ == "__main__":
